@@ -12,7 +12,6 @@ import (
 	"github.com/tink-crypto/tink-go/v2/jwt/jwtmldsa"
 	"github.com/tink-crypto/tink-go/v2/jwt/jwtrsassapkcs1"
 	"github.com/tink-crypto/tink-go/v2/jwt/jwtrsassapss"
-	"github.com/tink-crypto/tink-go/v2/signature/mldsa"
 	"github.com/tink-crypto/tink-go/v2/verifharness/internal/gen"
 	"github.com/tink-crypto/tink-go/v2/verifharness/internal/tk"
 )
@@ -312,12 +311,9 @@ func (s jwtMlDsaSpec) build(variant string, id uint32) (*Info, error) {
 	if err != nil {
 		return nil, err
 	}
-	// The public key bytes come from the plain ML-DSA key type (seed expansion).
-	raw, err := mlDsaSpec{instance: s.instance, seed: s.seed}.build(tk.NoPrefix, 0)
-	if err != nil {
-		return nil, err
-	}
-	pubBytes := raw.Public.(*mldsa.PublicKey).KeyBytes()
+	// The public key bytes come from the harness's own ML-DSA key generation (sig.go: mlDsaPublic);
+	// NewPrivateKeyFromPublicKey below fails if the library derives another public key from the seed.
+	pubBytes := mlDsaPublic(s.instance, s.seed)
 	opts := jwtmldsa.PublicKeyOpts{KeyBytes: pubBytes, IDRequirement: i.ID, Parameters: p}
 	if strategy == KIDCustom {
 		opts.CustomKID, opts.HasCustomKID = s.kid.customKID, true
